@@ -133,6 +133,15 @@ Theorem C14_fstring_nesting_refuted :
 Proof. exact fstring_nesting_refuted. Qed.
 Print Assumptions C14_fstring_nesting_refuted.
 
+(* ... and  x = f<sq>{a}{ NL b}<sq>  (a newline inside a replacement field of a single-quoted f-literal, valid since
+   3.12): the lexer has one f-literal, the regular expression finds nothing. Open finding C14-fstring-newline-in-field. *)
+Theorem C14_fstring_newline_refuted :
+  ref_regions fnl_witness = [(4, 14, Some [102])]%N
+  /\ scan_regions (table_of [] [] [] []) fnl_witness = []
+  /\ lex_sane (table_of [] [] [] []) fnl_witness = false.
+Proof. exact fstring_newline_refuted. Qed.
+Print Assumptions C14_fstring_newline_refuted.
+
 (* ---------------------------------------------------------------- real_code, for ALL texts and ALL well-formed region lists *)
 
 Theorem C14_real_code_length : forall (rs : list region) (s : text),
